@@ -11,8 +11,8 @@ from pathlib import Path
 VERIF = Path(__file__).resolve().parent.parent
 REPO = Path(os.environ.get("VERIF_REPO", "/repo"))
 SPEC = VERIF / "spec"
-WORK = VERIF / ".work"
-EVID = VERIF / "evidence"
+WORK = Path(os.environ.get("VERIF_WORK", VERIF / ".work"))        # scratch; overridable so that sweeps can run side by side
+EVID = Path(os.environ.get("VERIF_EVID", VERIF / "evidence"))
 REPLAYS = EVID / "replays"
 KNOWN = VERIF / "known_findings.json"
 
@@ -108,7 +108,8 @@ class Ctx:
             record["seed"] = self.seed
             record["tier"] = self.tier
             path.write_text(json.dumps(record, indent=1, default=repr))
-            print(f"VIOLATION property={self.pid} replay={path.relative_to(VERIF)}", flush=True)
+            shown = path.relative_to(VERIF) if str(path).startswith(str(VERIF)) else path
+            print(f"VIOLATION property={self.pid} replay={shown}", flush=True)
             print(f"  what: {record.get('what')}", flush=True)
         self.violations.append(record)
         return True
